@@ -46,7 +46,7 @@ func init() {
 			host("C13/scripted", c13Run),
 			host("middleware", c12Middleware),
 		},
-		Quick:    60000,
+		Quick:    200000,
 		Thorough: 3000000,
 		Assume: []string{
 			"read-after-release is detected by its effects (poison on the wire or in a hand-over), not by intercepting every accessor; data races are outside a cooperative simulation",
